@@ -51,9 +51,10 @@ def body_index(h):
     vals, arr = _arrays(h)
     base = h.int('base', 0, 1)
     arr._base = base
-    dims = [h.int('d%d' % k, 0, 32767) for k in range(n)]
-    i = [h.int('i%d' % k, 0, 32767) for k in range(n)]
-    j = [h.int('j%d' % k, 0, 32767) for k in range(n)]
+    top = h.params.get('top', 32767)
+    dims = [h.int('d%d' % k, 0, top) for k in range(n)]
+    i = [h.int('i%d' % k, 0, top) for k in range(n)]
+    j = [h.int('j%d' % k, 0, top) for k in range(n)]
     for k in range(n):
         h.assume(s_and(dims[k] >= base, i[k] >= base, i[k] <= dims[k], j[k] >= base, j[k] <= dims[k]))
     fi = arr.index(i, dims)
@@ -61,7 +62,23 @@ def body_index(h):
     fl = arr.flat_length(dims)
     h.require('in-range', s_and(fi >= 0, fi < fl))
     same = s_and(*[x == y for x, y in zip(i, j)])
-    h.require('injective', s_implies(fi == fj, same))
+    if n < 4:
+        h.require('injective', s_implies(fi == fj, same))
+    else:
+        # Four dimensions: the direct query (non-linear, 12 unknowns) was decided only when the incremental
+        # solver happened to carry the right lemmas (7 s alone, unknown after 30 min inside a loaded thorough
+        # run).  It is decided as three queries instead: (a) the real 4-D index is the real 3-D index of the
+        # first three subscripts plus area3 * last subscript; (b) the 3-D index lies in [0, area3) and is
+        # injective (case index-3d, same code); (c) for all x, y in [0, A): x + A*u = y + A*v implies
+        # x = y and u = v.  (a)+(b)+(c) give injectivity of the 4-D index.
+        f3i, f3j = arr.index(i[:3], dims[:3]), arr.index(j[:3], dims[:3])
+        area3 = arr.flat_length(dims[:3])
+        h.require('4d-index-decomposes', s_and(fi == f3i + area3 * (i[3] - base), fj == f3j + area3 * (j[3] - base)))
+        h.require('3d-part-in-range', s_and(f3i >= 0, f3i < area3, f3j >= 0, f3j < area3))
+        A = h.int('lemmaA', 1, 2 ** 46)
+        x, y = h.int('lemmax', 0, 2 ** 46), h.int('lemmay', 0, 2 ** 46)
+        u, v = h.int('lemmau', 0, 32767), h.int('lemmav', 0, 32767)
+        h.require('mixed-radix-lemma', s_implies(s_and(x < A, y < A, x + A * u == y + A * v), s_and(x == y, u == v)))
     # the number of elements is the product of the extents
     prod = 1
     for k in range(n):
